@@ -64,6 +64,7 @@ Proof.
   set (e0 := with_clock e (clock e + adv)%Z).
   assert (G0 : G e e0) by (apply G_xext; auto; apply xext_with_clock).
   destruct (is (pstate e0) SRunning); [|exact G0].
+  apply G_persist.
   apply (G_fold _ _ (fun t => t < ntasks e0)); [| |exact G0].
   - intros ee t Ht Gee.
     apply (G_fold _ _ (fun _ => True)); [|auto|exact Gee].
@@ -265,6 +266,14 @@ Qed.
 
 Lemma ret_J e e' : G e e' -> forall b, G e (add_ev e' (EAct b)).
 Proof. intros Gee b. eapply G_trans; [exact Gee|]. apply G_xext; [apply Gee | now apply xext_add_ev]. Qed.
+Lemma ret_err_J e e' : G e e' -> G e (ret_err e').
+Proof. intros H. now apply ret_J. Qed.
+Lemma ret_ok_J e e' : G e e' -> G e (ret_ok e').
+Proof. intros H. unfold ret_ok. apply ret_J. now apply G_persist. Qed.
+Ltac ret_tac := match goal with
+  | |- G _ (ret_ok _) => apply ret_ok_J
+  | |- G _ (ret_err _) => apply ret_err_J
+  end.
 
 (* Task::update for an admitted action *)
 Lemma perform_J e i a cv : J e -> i < ntasks e -> (is_cancel a = false -> is_completed (st e i) = false) -> G e (perform e i a cv).
@@ -275,16 +284,16 @@ Proof.
     assert (Gs : G e (set_state site e i s)) by (apply G_set_state; auto; rewrite legal_to_terminal; auto).
     eapply G_trans; [exact Gs|]. apply mainN; [apply Gs | destruct Gs; lia]. }
   destruct a; unfold perform; cbv zeta.
-  - (* next *) apply ret_J, Hnext; auto.
-  - apply ret_J, Hnext; auto.
-  - apply ret_J, Hnext; auto.
+  - (* next *) ret_tac; apply Hnext; auto.
+  - ret_tac; apply Hnext; auto.
+  - ret_tac; apply Hnext; auto.
   - (* skip *)
     specialize (Hopen eq_refl).
     set (e1 := close_open 26 e (siblings e i) SSkipped).
     assert (G1 : G e e1) by (apply close_open_J; auto; intros j Hj; eapply siblings_lt; eauto).
     assert (S1 : st e1 i = st e i).
     { apply close_open_st; [discriminate | intros j Hj; eapply siblings_lt; eauto | intros Hin; now apply siblings_ne in Hin]. }
-    apply ret_J.
+    ret_tac.
     assert (Gs : G e1 (set_state 25 e1 i SSkipped)) by (apply G_set_state; [apply G1 | rewrite S1, legal_to_terminal; auto]).
     eapply G_trans; [exact G1|]. eapply G_trans; [exact Gs|]. apply mainN; [apply Gs | destruct G1, Gs; lia].
   - (* abort *)
@@ -293,7 +302,7 @@ Proof.
     assert (G1 : G e e1) by (apply close_open_J; auto; intros j Hj; eapply siblings_lt; eauto).
     assert (S1 : st e1 i = st e i).
     { apply close_open_st; [discriminate | intros j Hj; eapply siblings_lt; eauto | intros Hin; now apply siblings_ne in Hin]. }
-    apply ret_J.
+    ret_tac.
     assert (Gs : G e1 (set_state 27 e1 i SAborted)) by (apply G_set_state; [apply G1 | rewrite S1, legal_to_terminal; auto]).
     assert (Gd : G e1 (set_data (set_state 27 e1 i SAborted) i cv)).
     { eapply G_trans; [exact Gs|]. apply G_xext; [apply Gs | apply xext_set_data]. }
@@ -305,22 +314,22 @@ Proof.
     apply abort_up_J; [apply G3|]. intros q Hq.
     destruct G3 as [((_ & _ & HW3 & _) & _) L3]. apply parent_lt in Hq; auto; destruct G1, G2; lia.
   - (* error *)
-    destruct code as [c|]; [|apply ret_J; now apply G_refl].
+    destruct code as [c|]; [|ret_tac; now apply G_refl].
     specialize (Hopen eq_refl).
-    destruct (parent e i) as [p|] eqn:Ep; [|apply ret_J; now apply G_refl].
+    destruct (parent e i) as [p|] eqn:Ep; [|ret_tac; now apply G_refl].
     set (e1 := close_open 32 e (siblings e p) SSkipped).
     assert (G1 : G e e1) by (apply close_open_J; auto; intros j Hj; eapply siblings_lt; eauto).
     assert (S1 : st e1 i = st e i).
     { apply close_open_st; [discriminate | intros j Hj; eapply siblings_lt; eauto | eapply not_sibling_of_parent; eauto]. }
-    apply ret_J.
+    ret_tac.
     assert (Gs : G e1 (set_err 31 e1 i c)) by (apply G_set_err; [apply G1 | rewrite S1; apply legal_to_terminal; auto]).
     assert (Gd : G e1 (set_data (set_err 31 e1 i c) i cv)).
     { eapply G_trans; [exact Gs|]. apply G_xext; [apply Gs | apply xext_set_data]. }
     eapply G_trans; [exact G1|]. eapply G_trans; [exact Gd|]. apply mainEE; [apply Gd | destruct G1, Gd; lia].
   - (* back *)
-    destruct to as [nid|]; [|apply ret_J; now apply G_refl].
+    destruct to as [nid|]; [|ret_tac; now apply G_refl].
     specialize (Hopen eq_refl).
-    destruct (backs (S (length (tasks e))) e nid (t_prev (tk e i)) []) as [[t|] path] eqn:Eb; [|apply ret_J; now apply G_refl].
+    destruct (backs (S (length (tasks e))) e nid (t_prev (tk e i)) []) as [[t|] path] eqn:Eb; [|ret_tac; now apply G_refl].
     assert (Hp0 : forall q, t_prev (tk e i) = Some q -> q < ntasks e) by (intros q Hq; specialize (HW i Hi); rewrite Hq in HW; lia).
     assert (Hn0 : forall x : nat, In x [] -> x < ntasks e) by (intros x []).
     destruct (backs_range e nid HW (S (length (tasks e))) (t_prev (tk e i)) [] (Some t) path Hp0 Hn0 Eb) as [Ht Hpath].
@@ -343,16 +352,16 @@ Proof.
       eapply G_trans; [exact Gp|]. apply mainE; [apply Gp | destruct Gp; lia]. }
     assert (L13 : ntasks e <= ntasks e3) by (destruct G1, G2, G3; lia).
     assert (G4 : G e3 (mark_path e3 path)) by (apply mark_path_J; [apply G3 | intros x Hx; specialize (Hpath x Hx); lia]).
-    apply ret_J. eapply G_trans; [exact G1|]. eapply G_trans; [exact G2|]. eapply G_trans; [exact G3|]. eapply G_trans; [exact G4|].
+    ret_tac. eapply G_trans; [exact G1|]. eapply G_trans; [exact G2|]. eapply G_trans; [exact G3|]. eapply G_trans; [exact G4|].
     apply G_xext; [apply G4|]. destruct G4 as [J4 L4]. apply xext_redo; [apply J4 | lia].
   - (* cancel *)
-    destruct (climb_step e i) as [s|] eqn:Es; [|apply ret_J; now apply G_refl].
+    destruct (climb_step e i) as [s|] eqn:Es; [|ret_tac; now apply G_refl].
     assert (Rs : s < ntasks e) by (eapply climb_step_lt; eauto).
-    destruct (negb (is (st e s) SCompleted)); [apply ret_J; now apply G_refl|].
+    destruct (negb (is (st e s) SCompleted)); [ret_tac; now apply G_refl|].
     destruct (follows (S (length (tasks e))) e s []) as [nexts path] eqn:Ef.
     assert (Hn0 : forall x : nat, In x [] -> x < ntasks e) by (intros x []).
     destruct (follows_range e (S (length (tasks e))) s [] nexts path Hn0 Ef) as [Hnexts Hpath].
-    destruct nexts as [|n0 ns]; [apply ret_J; now apply G_refl|].
+    destruct nexts as [|n0 ns]; [ret_tac; now apply G_refl|].
     set (nexts := n0 :: ns) in *.
     set (e1 := mark_path e path).
     assert (G1 : G e e1) by (apply mark_path_J; auto).
@@ -379,14 +388,14 @@ Proof.
         apply mainE; [apply Gs | destruct Gu, Gs; lia]. }
       apply Hgen; [intros x Hx; specialize (Hnexts x Hx); destruct G1; lia | apply G_refl, G1]. }
     cbn [fst] in HF.
-    destruct failed; [apply ret_J; eapply G_trans; eauto|].
-    apply ret_J. eapply G_trans; [exact G1|]. eapply G_trans; [exact HF|].
+    destruct failed; [ret_tac; eapply G_trans; eauto|].
+    ret_tac. eapply G_trans; [exact G1|]. eapply G_trans; [exact HF|].
     apply G_xext; [apply HF|]. destruct HF as [J2 L2]. apply xext_redo; [apply J2 | destruct G1; lia].
   - (* push *)
-    destruct (negb uses_ok); [apply ret_J; now apply G_refl|].
+    destruct (negb uses_ok); [ret_tac; now apply G_refl|].
     set (e1 := with_nodes e (nodes e ++ [mk_dyn (S (n_level (tnode e i))) dspec])).
     assert (G1 : G e e1) by (apply G_xext; auto; apply xext_with_nodes).
-    destruct (is (st e1 i) SNone); apply ret_J; [exact G1|].
+    destruct (is (st e1 i) SNone); ret_tac; [exact G1|].
     eapply G_trans; [exact G1|]. apply G_xext; [apply G1|]. apply xext_sched. destruct G1; lia.
 Qed.
 
